@@ -132,6 +132,11 @@ class GEngine(object):
             else:
                 # succeeds under one environment and fails under the other
                 self.golden_violations.append((j, g1, g2))
+        # vacuity guard: plain upstream corpus jobs that do not even run in a fresh process
+        plain = [j for j in allj if j.meta.get("source") == "corpus"]
+        failed = [j.id for j in plain if j.id not in self.targets]
+        self.stats["corpus_jobs_in_pool"] = len(plain)
+        self.stats["corpus_jobs_failing_fresh"] = failed
         self.targets.sort()
         self.poisons.sort()
         self.stats["jobs_admitted"] = admitted
@@ -348,6 +353,7 @@ class GEngine(object):
             "probes": st["probes"],
             "probes_stuck_at_zero": [p for p in self.expected_probes() if not st["probes"].get(p)],
             "jobs_admitted": st.get("jobs_admitted"),
+            "corpus_jobs_failing_in_fresh_process": st.get("corpus_jobs_failing_fresh"),
             "jobs_used_as_aborting_predecessors": st.get("jobs_poison"),
             "ordered_job_pairs_seen": st.get("ordered_pairs_seen"),
             "violating_histories": st["violating_histories"],
@@ -403,6 +409,13 @@ class GEngine(object):
         if code == 0 and (not ok or st["harness_errors"]):
             print("HARNESS-ERROR: self-tests=%s harness_errors=%d %s" % (
                 self.selftest, st["harness_errors"], self.harness_error_samples[:2]))
+            return report.EXIT_HARNESS
+        nplain = st.get("corpus_jobs_in_pool", 0)
+        nfail = len(st.get("corpus_jobs_failing_fresh", []))
+        if code == 0 and nplain and nfail * 5 > nplain:
+            # nothing was violated, but little was explored: do not report "held"
+            print("HARNESS-ERROR: %d of %d plain upstream corpus jobs fail in a fresh process on this tree "
+                  "(e.g. %s); the check would be vacuous" % (nfail, nplain, st["corpus_jobs_failing_fresh"][:3]))
             return report.EXIT_HARNESS
         return code
 
